@@ -98,8 +98,8 @@ def c03(tier, seed, case=None):
     v = _mk('C03', tier, seed, 'exploration',
             'one case = one spec-conformant .shp built by the independent reference encoder (shpref.py) from a random model: any of '
             'the 14 type codes, 0..5 records, per-record layout features the library never writes (M block absent, PointZ without M, '
-            'null records inside a typed file, 0 parts / 0 points, empty and one-vertex parts, arbitrary stored boxes and record '
-            'numbers, bytes after the declared length), all float pools incl. raw random bit patterns; the library decodes it '
+            'null records inside a typed file, 0 parts / 0 points, empty and one-vertex parts, arbitrary stored boxes (one in five left '
+            'zeroed, one in ten a single repeated value; Z / M ranges likewise) and record numbers, bytes after the declared length), all float pools incl. raw random bit patterns; the library decodes it '
             '(read, iter_shapes, read_as / iter_shapes_as when homogeneous; on cursors and through read_shapes / from_path / read_shapes_as on '
             'the file itself) and the dumps are compared with the model. distinct = '
             '(type code, feature set, part counts); non-trivial = every file with >= 1 record',
@@ -174,7 +174,8 @@ def c06(tier, seed, case=None):
             'generic through every path route); identity/shapetype of every variant; bulk conversion with '
             'the odd shape at every position; mixed sequences (several foreign types, NullShape included) as vectors and as '
             'hand-concatenated files through convert_shapes_to_vec_of / read_as / iter_shapes_as, decided by the first element that '
-            'is not an S. distinct = (S, T, api) cells + (S, T, len, pos) bulk cases; all non-trivial',
+            'is not an S; a record of type T that is malformed for T (nothing but its type word / its last 8 bytes missing) requested '
+            'as S != T still answers with the mismatch naming T. distinct = (S, T, api) cells + (S, T, len, pos) bulk cases; all non-trivial',
             exhaustive=True)
     import os
     import gen_c03
